@@ -517,7 +517,28 @@ func vC20PickKeys(r *rand.Rand, u []string, stored []string, n int, pStored int)
 	return keys
 }
 
+// vC20Uniq removes repeated keys, keeping the first occurrence.
+func vC20Uniq(keys []string) []string {
+	seen := map[string]bool{}
+	var out []string
+	for _, k := range keys {
+		if !seen[k] {
+			seen[k] = true
+			out = append(out, k)
+		}
+	}
+	return out
+}
+
 func vC20GenOp(r *rand.Rand, p *vC20Pool, u []string, m vC20Set, cfg vC20Cfg, o vC20GenOpts) vC20Op {
+	op := vC20GenOp0(r, p, u, m, cfg, o)
+	if (op.Kind == "put" || op.Kind == "del") && !o.Dups {
+		op.Keys = vC20Uniq(op.Keys)
+	}
+	return op
+}
+
+func vC20GenOp0(r *rand.Rand, p *vC20Pool, u []string, m vC20Set, cfg vC20Cfg, o vC20GenOpts) vC20Op {
 	stored := m.sorted()
 	x := r.Intn(100)
 	switch {
@@ -745,14 +766,14 @@ func vC20RenderRes(p *vC20Pool, op vC20Op, r vC20Res) string {
 
 func TestVerif_C20_model(t *testing.T) {
 	vh.Run(t, vh.Spec{Prop: "C20", Unit: "model", Quick: 1500, Thorough: 100000, CostMs: 3,
-		Rule: "PRNG histories of 6-25 Put (1-6 keys, stored and new, 1 call in 5 of 60% of the histories carries a key twice) / Get / ContainsPrefix / CountKeysUpTo (prefix lengths around prefixBits, common prefixes of stored keys, flipped last bit; limits -1..100) / Delete / Empty / Size / clean restart (Close + reopen on the same journaling store) / sequential ResetCids (0-10 CIDs) on the plain keystore and the resettable keystore in shared and factory mode, prefixBits in {0,8,16}, batchSize in {1,2,3,7}, 8-40 multihashes out of a pool with ids sharing 17+ leading bits; lock-step set model (ids recomputed as sha256 of the multihash), Size and full contents compared after every step; non-trivial = a Put of an already stored key, a prefix query longer than prefixBits whose post-filter discriminates (fewer matches than under the truncated prefix) and a restart all occurred; distinct by hash of the model-state sequence",
+		Rule: "PRNG histories of 6-25 Put (1-6 keys, stored and new, 1 call in 5 of 40% of the histories carries a key twice) / Get / ContainsPrefix / CountKeysUpTo (prefix lengths around prefixBits, common prefixes of stored keys, flipped last bit; limits -1..100) / Delete / Empty / Size / clean restart (Close + reopen on the same journaling store) / sequential ResetCids (0-10 CIDs) on the plain keystore and the resettable keystore in shared and factory mode, prefixBits in {0,8,16}, batchSize in {1,2,3,7}, 8-40 multihashes out of a pool with ids sharing 17+ leading bits; lock-step set model (ids recomputed as sha256 of the multihash), Size and full contents compared after every step; non-trivial = a Put of an already stored key, a prefix query longer than prefixBits whose post-filter discriminates (fewer matches than under the truncated prefix) and a restart all occurred; distinct by hash of the model-state sequence",
 		Clauses: []string{"put-returns-new", "get-prefix", "contains-prefix", "count-prefix", "delete", "size", "contents", "restart-contents", "reset-contents"}},
 		func(c *vh.Case) {
 			p := vC20GetPool()
 			r := c.R
 			cfg := vC20RandCfg(r, vC20AllKinds)
 			u := vC20Universe(r, p)
-			opts := vC20GenOpts{Dups: r.Intn(10) < 6, Reset: true, Restart: true}
+			opts := vC20GenOpts{Dups: r.Intn(10) < 4, Reset: true, Restart: true}
 			c.Set("config", cfg.String())
 			c.Set("universe", len(u))
 			c.Set("dup_calls_allowed", opts.Dups)
@@ -783,7 +804,7 @@ func TestVerif_C20_model(t *testing.T) {
 				if !h.step(op) {
 					break
 				}
-				states = append(states, strings.Join(p.short(h.m.sorted()), ""))
+				states = append(states, p.short(h.m.sorted()))
 			}
 			if env.ks != nil {
 				env.ks.Close()
@@ -1335,3 +1356,5 @@ func vC20RenderOps(p *vC20Pool, ops []vC20Op) string {
 	}
 	return strings.Join(out, "; ")
 }
+
+func vC20Rand(seed int64) *rand.Rand { return rand.New(rand.NewSource(seed)) }
